@@ -80,6 +80,20 @@ def run_csr(case):
     subs, ghosts = [], []
     stats = {"subs": 0, "explicit": 0, "padded": 0, "unassigned_vectors": 0, "vectors": 0, "refused_adds": 0,
              "elaborated_before_add": 0, "refused_then_other_interface": 0}
+    if us.random() < .12:
+        # the designer gives the decoder's bus a memory map of their own (same geometry) before adding anything
+        dec.bus.memory_map = MemoryMap(addr_width=aw, data_width=dw, alignment=al)
+        stats["own_map_assigned"] = 1
+    if us.random() < .15 and aw >= 3:
+        # a reserved hole: a resource added directly to the decoder's map, below the windows that follow
+        try:
+            dec.bus.memory_map.add_resource(wiring.Component({}), name="reserved_hole", size=1)
+            stats["direct_resource"] = 1
+        except ValueError:
+            pass
+    align_pair = us.random() < .2          # align_to(k) once, then the following adds are all implicit
+    if align_pair:
+        dec.align_to(us.choice([3, 4, 4, 5, 6]))
     extra_subs = rnd2.choice([3, 5, 8]) if rnd2.random() < .06 else 0
     for i in range(rnd.randint(0, 5) + extra_subs):
         saw = rnd.randint(1, aw) if not extra_subs else rnd.randint(1, max(1, aw - 3))
@@ -89,6 +103,8 @@ def run_csr(case):
                  ghosts=ghosts, mk_map=lambda: MemoryMap(addr_width=saw, data_width=dw))
         try:
             how = rnd.random()
+            if align_pair:
+                how = min(how, .49)
             if how < .5:
                 dec.add(how_given(sb), name=None if rnd.random() < .5 else f"s{i}")
             elif how < .85:
@@ -104,6 +120,12 @@ def run_csr(case):
         except ValueError:
             stats["refused_adds"] += 1
     wins = {id(w): (s, e) for w, n, (s, e, r) in dec.bus.memory_map.windows()}
+    pre_fails = []
+    lost = [sb for sb in subs if id(sb.memory_map) not in wins]
+    if lost:
+        pre_fails.append(("C06", f"{len(lost)} subordinate(s) whose add() was accepted are missing from the windows() of the decoder's memory map "
+                                 f"(bus.memory_map lists {len(wins)} windows for {len(subs)} accepted adds)", 0))
+        subs = [sb for sb in subs if id(sb.memory_map) in wins]
     subs.sort(key=lambda sb: wins[id(sb.memory_map)][0])
     stats["subs"] = len(subs)
     lines = [f"case {len(subs)}"]
@@ -114,7 +136,7 @@ def run_csr(case):
             stats["padded"] += 1
     sim = simutil.simulator(simutil.wrap(dec), case, stats)
     sim.add_clock(1e-6)
-    obs, fails = [], []
+    obs, fails = [], list(pre_fails)
     sweep = aw <= 6
 
     async def tb(ctx):
@@ -187,6 +209,13 @@ def run_wb(case):
              "elaborated_before_add": 0, "refused_then_other_interface": 0}
     maw_dec = max(1, aw + gb)
     extra_subs = rnd2.choice([3, 5, 8]) if rnd2.random() < .06 else 0        # more than the usual handful of windows
+    if us.random() < .15 and maw_dec >= 3:
+        # a reserved hole: a resource added directly to the decoder's map, below the windows that follow
+        try:
+            dec.bus.memory_map.add_resource(wiring.Component({}), name="reserved_hole", size=1)
+            stats["direct_resource"] = 1
+        except ValueError:
+            pass
     for i in range(rnd.randint(0, 5) + extra_subs):
         sparse = rnd.random() < .3
         small = False
@@ -233,6 +262,12 @@ def run_wb(case):
         except ValueError:
             pass
     wins = {id(w): (s, e) for w, n, (s, e, r) in dec.bus.memory_map.windows()}
+    pre_fails = []
+    lost = [t for t in subs if id(t[0].memory_map) not in wins]
+    if lost:
+        pre_fails.append(("C07", f"{len(lost)} subordinate(s) whose add() was accepted are missing from the windows() of the decoder's memory map "
+                                 f"(bus.memory_map lists {len(wins)} windows for {len(subs)} accepted adds)", 0))
+        subs = [t for t in subs if id(t[0].memory_map) in wins]
     subs.sort(key=lambda t: wins[id(t[0].memory_map)][0])
     stats["subs"] = len(subs)
     lines = [f"case {aw} {gb} {fbits(feats)} {len(subs)}"]
@@ -240,7 +275,7 @@ def run_wb(case):
         lines.append(f"sub {wins[id(sb.memory_map)][0]} {maw} {len(sb.adr)} {sb.data_width} {len(sb.sel)} {fbits(sf)}")
     sim = simutil.simulator(simutil.wrap(dec), case, stats)
     sim.add_clock(1e-6)
-    obs, fails = [], []
+    obs, fails = [], list(pre_fails)
     bus = dec.bus
     selw = dw // gran
 
